@@ -231,6 +231,59 @@ func cmdCases(c *core.Ctx) {
 	}
 	one("resolve", nil)
 	one("resolve", nil)
+	// rooted (and unrooted) trees with EXACTLY ONE multifurcation of the smallest kind: the branch count is
+	// the one of a binary unrooted tree, so no shortcut by counting branches may skip them
+	for i := 0; i < 4; i++ {
+		k++
+		outmode := "stdout"
+		if k%2 == 0 {
+			outmode = "file"
+		}
+		recs := []string{oneTrifurcation(c, i%2 == 0).Dump()}
+		if i == 3 {
+			recs = append(recs, oneTrifurcation(c, true).Dump())
+		}
+		doCmd(c, "resolve", nil, outmode, int64(c.G.Intn(1<<30)), recs)
+	}
+}
+
+// oneTrifurcation draws a binary tree and contracts one inner branch that does not hang off the root:
+// exactly one node with three children (four neighbours), everything else binary.
+func oneTrifurcation(c *core.Ctx, rooted bool) *core.N {
+	o := core.DefaultOpts()
+	o.Multif, o.Singles, o.InnerNames = 0, 0, 0
+	o.MinTips, o.MaxTips = 5, 9
+	o.Rooted = 0
+	if rooted {
+		o.Rooted = 1
+	}
+	for {
+		t, _ := c.G.Tree(o)
+		type cand struct {
+			par *core.N
+			i   int
+		}
+		var cs []cand
+		var rec func(x *core.N, isRoot bool)
+		rec = func(x *core.N, isRoot bool) {
+			for i, k := range x.Kids {
+				if !isRoot && len(k.Kids) > 0 {
+					cs = append(cs, cand{x, i})
+				}
+				rec(k, false)
+			}
+		}
+		rec(t, true)
+		if len(cs) == 0 {
+			continue
+		}
+		pick := cs[c.G.Intn(len(cs))]
+		x := pick.par.Kids[pick.i]
+		kids := append(append(append([]*core.N{}, pick.par.Kids[:pick.i]...), x.Kids...), pick.par.Kids[pick.i+1:]...)
+		pick.par.Kids = kids
+		core.NumberEdges(t)
+		return t
+	}
 }
 
 func collectTips(n *core.N) []*core.N {
